@@ -374,6 +374,28 @@ def run(ctx) -> None:
             ok = bool(targets) and all(all_paths_pass(start, t, restores, hit_val) for t in targets)
             rep.add("C09.R7", f"{f.qname}:restore-before-apply", ok, f"{f.module.rel}:{restores[0].lineno}", "on a hit the routing decision is restored (internal key removed) before outputs are applied/returned" if ok else "on a hit the cached outputs can be applied without restoring the routing decision / removing the internal key")
 
+    # the decision object travels unchanged: what the gate recorded is stored, what was stored is restored
+    # (readers dispatch on its type: a list is a multi-target decision, anything else a single name)
+    sic = db.func("runners._shared.caching.store_in_cache")
+    rrd_ = db.func("runners._shared.caching.restore_routing_decision")
+
+    def _key_stores(f):
+        return [n for n in walk_local(f.node) if isinstance(n, ast.Assign) and len(n.targets) == 1 and isinstance(n.targets[0], ast.Subscript) and src(n.targets[0].slice) == "_ROUTING_DECISION_KEY"]
+
+    def _from(f, v, pred) -> bool:
+        """v is a Name with a single definition whose value satisfies pred"""
+        if not isinstance(v, ast.Name):
+            return False
+        ds = db.local_defs(f).get(v.id, [])
+        return len(ds) == 1 and getattr(ds[0], "value", None) is not None and pred(ds[0].value)
+
+    st = _key_stores(sic)
+    ok = len(st) == 1 and _from(sic, st[0].value, lambda e: isinstance(e, ast.Call) and isinstance(e.func, ast.Attribute) and e.func.attr == "get" and src(e.func.value).endswith(".routing_decisions") or isinstance(e, ast.Subscript) and src(e.value).endswith(".routing_decisions"))
+    rep.add("C09.R7", f"{sic.qname}:decision-stored-as-recorded", ok, sic.loc(), "the decision object the gate recorded is stored as it is" if ok else f"the stored routing decision is transformed ('{src(st[0].value) if st else '?'}'): the scheduler tells a multi-target decision from a single name by its type, so a restored tuple/str/copy of another type activates no target on a hit")
+    rs = [n for n in walk_local(rrd_.node) if isinstance(n, ast.Assign) and len(n.targets) == 1 and isinstance(n.targets[0], ast.Subscript) and src(n.targets[0].value).endswith(".routing_decisions")]
+    ok = len(rs) == 1 and _from(rrd_, rs[0].value, lambda e: isinstance(e, ast.Call) and isinstance(e.func, ast.Attribute) and e.func.attr in ("pop", "get") and e.args and src(e.args[0]) == "_ROUTING_DECISION_KEY")
+    rep.add("C09.R7", f"{rrd_.qname}:decision-restored-as-stored", ok, rrd_.loc(), "the stored decision object is written back unchanged" if ok else "the restored routing decision is transformed on the way back into the state")
+
     # ---- R8 ---------------------------------------------------------------------
     im = db.cls("cache.InMemoryCache")
     g2, s2 = im.methods["get"], im.methods["set"]
@@ -394,6 +416,7 @@ CH = "src/hypergraph/cache.py"
 SS = "src/hypergraph/runners/sync/superstep.py"
 AS = "src/hypergraph/runners/async_/superstep.py"
 VARIANTS = [
+    Variant("cached-decision-frozen-to-tuple", CA, replace_once("            to_cache[_ROUTING_DECISION_KEY] = decision", "            to_cache[_ROUTING_DECISION_KEY] = tuple(decision) if isinstance(decision, list) else decision"), {"C09.R7"}),
     Variant("key-without-outputs", CA, replace_once("{node.data_outputs!r}:{node.outputs!r}:", ""), {"C09.R1"}),
     Variant("key-on-renamed-inputs", CA, replace_once("cache_key = compute_cache_key(identity, node.map_inputs_to_params(inputs))", "cache_key = compute_cache_key(identity, inputs)"), {"C09.R1"}),
     Variant("key-without-routing-config", CA, replace_once(":{_routing_config(node)!r}\"", "\""), {"C09.R1"}),
